@@ -159,6 +159,28 @@ def parser_half(h, res, rng, tier, py_scan):
             st["texts_with_swallowed_comment_F20"] += 1
             st["comments_swallowed_by_NEWLINE_F20"] += len(sc) - len(tc)
     st["mismatches"] = len(mism)
+    # F20 at the grammar level, on the implementation: the 6-byte witness of C09_f20_witness_swallowed, and an
+    # exhaustive search showing that no shorter text over the alphabet below is accepted with a swallowed comment
+    wit = "(//\n1)"
+    wp = c.harness_lines_resilient(h, "c09pc", [c.hexs(wit)])[0]
+    wd = c.harness_lines_resilient(h, "c09p", [c.hexs(wit)])[0]
+    alpha = "1(/\n)+,[f"
+    small = [""]
+    allsmall = []
+    for _ in range(5):
+        small = [x + ch for x in small for ch in alpha]
+        allsmall += [x for x in small if "//" in x]
+    sp = c.harness_lines_resilient(h, "c09pc", [c.hexs(x) for x in allsmall])
+    shorter = [x for x, o in zip(allsmall, sp) if o is not None and o != "-" and
+               len([y for y in o.split(",") if y]) < len(py_scan(x))]
+    st["F20_witness"] = {"text": wit, "impl_pairs": wp, "impl_ast": wd,
+                         "reproduces": wp == "" and (wd or "").startswith("OK") and "2f2f" not in (wd or ""),
+                         "exhaustive_shorter_search": {"alphabet": alpha, "max_bytes": 5, "texts_with_//": len(allsmall),
+                                                       "accepted_with_swallowed_comment": len(shorter),
+                                                       "first": shorter[:3]}}
+    if not st["F20_witness"]["reproduces"]:
+        res.tie_broken("C09P: the F20 witness of C09_f20_witness_swallowed no longer behaves on the real parser as the "
+                       "model says", "pairs=%r ast=%r" % (wp, wd))
     st["kinds"] = dict(sorted(kinds.items()))
     st["shape_predicate_false_on_interpreter_tree"] = len(shape_bad)
     res.streams["C09P-parser-half"] = st
